@@ -4,10 +4,10 @@ event `TParse` of SM/IdNest.v interprets).
 Steps (see SM/IdNest.v):
   GPPlaceholder         `M = VMF(...)`: the constructor makes the placeholder worldspawn;
   GPWorld               a call `Entity.parse(M, <block>, _worldspawn=True)`;
-  GPDropPlaceholder     the moment the last reference the map holds on the placeholder goes: the latest, in source order,
-                        of the re-binding `M.spawn = ...` and the removals of `M.spawn` from the lookup tables that precede
-                        it; when a local name was bound to `M.spawn` before, the placeholder lives until `parse` returns
-                        (the step moves to the end);
+  GPDropPlaceholder     the moment the last reference on the placeholder goes: the re-binding `M.spawn = ...`, provided the
+                        placeholder was taken out of both lookup tables (`M.by_class`, `M.by_target`) before -- otherwise it
+                        never dies and there is no such step; when a local name was bound to `M.spawn` before, the
+                        placeholder lives until `parse` returns (the step moves to the end);
   GPEntities            the loop statement that contains the other `Entity.parse(M, ...)` calls;
   GPReleasePlaceholder  any release call (`discard` / `remove` / `clear`) on an ID manager inside `VMF.parse`.
 Everything else in the function does not touch entity / brush / face IDs (visgroups and brush groups are kinds of their own,
@@ -125,7 +125,9 @@ def parse_program(vmf_tree: ast.Module) -> tuple[list[str], dict]:
     for n in ast.walk(fn):
         pos = (getattr(n, 'lineno', 0), getattr(n, 'col_offset', 0))
         if isinstance(n, ast.Call) and any(_is_map_attr(a, mname, 'spawn') for a in n.args) and pos < drop_at:
-            removals.append(ast.unparse(n.func))        # taken out of a lookup table (or merely read) before the re-binding
+            # taken out of a lookup table before the re-binding: _remove_copyset(<map>.by_class, key, <map>.spawn) or
+            # <map>.by_class[key].remove/discard(<map>.spawn)
+            removals += [t for t in ('by_class', 'by_target') if any(_is_map_attr(x, mname, t) for x in ast.walk(n))]
         if isinstance(n, (ast.Assign, ast.AnnAssign)) and n.value is not None and _is_map_attr(n.value, mname, 'spawn') and pos < drop_at:
             tgt = n.targets[0] if isinstance(n, ast.Assign) else n.target
             if not isinstance(tgt, ast.Name):
@@ -134,11 +136,18 @@ def parse_program(vmf_tree: ast.Module) -> tuple[list[str], dict]:
     for n in ast.walk(fn):
         if isinstance(n, ast.Delete) and any(isinstance(t, ast.Name) and t.id in aliases for t in n.targets):
             raise TranslateError(f'vmf.py:{n.lineno}: a local alias of the placeholder worldspawn is deleted')
+    kept_by = [t for t in ('by_class', 'by_target') if t not in removals]
     if aliases:
         end = max((getattr(n, 'lineno', 0), getattr(n, 'col_offset', 0)) for n in ast.walk(fn))
         drop_at = (end[0] + 1, 0)
-    steps.append((drop_at, 'GPDropPlaceholder',
-                  '<map>.spawn re-bound' + (f' (kept alive until return by {aliases})' if aliases else '')))
+    if kept_by:
+        # the constructor enters the placeholder into both lookup tables; while one of them still holds it, it never dies
+        # (its ID stays taken: a leak, not a duplicate)
+        side_note = f'the placeholder stays referenced by <map>.{kept_by[0]}: no destructor'
+    else:
+        side_note = ''
+        steps.append((drop_at, 'GPDropPlaceholder',
+                      '<map>.spawn re-bound' + (f' (kept alive until return by {aliases})' if aliases else '')))
     # explicit releases
     for n in ast.walk(fn):
         if isinstance(n, ast.Call) and isinstance(n.func, ast.Attribute) and n.func.attr in ('discard', 'remove', 'clear', 'pop') \
@@ -147,4 +156,105 @@ def parse_program(vmf_tree: ast.Module) -> tuple[list[str], dict]:
     steps.sort(key=lambda s: s[0])
     prog = [s for _, s, _ in steps]
     return prog, {'parse_program': [[s, d, pos[0]] for pos, s, d in steps], 'placeholder_aliases': aliases,
-                  'placeholder_table_removals': removals}
+                  'placeholder_table_removals': removals, 'placeholder_note': side_note}
+
+
+# ----------------------------------------------------------------------------------------------------------------------
+# Round 4: constructor calls outside the copy() methods (make_prism-style helpers, parse classmethods, create_* methods,
+# readers in other modules), and the choice of the manager class.
+ID_CLASSES = ('Solid', 'Side', 'Entity', 'VisGroup', 'EntityGroup')
+
+
+def ctor_census(trees: dict[str, ast.Module]) -> list[tuple[str, str, str, bool, int]]:
+    """Every constructor call of an ID-bearing class outside the `copy` methods (those are in the copy census): the map it is
+    given must be `self` (inside VMF), a parameter of the enclosing function or a local bound to `VMF(...)`, and all
+    constructor calls of one function must be given the same map (a helper builds all parts of its result for ONE map).
+    -> rows (where, class, map argument, ok, line)."""
+    from translate.c08_sites import _enclosing
+    from translate import c08_norm
+    rows: list[tuple[str, str, str, bool, int]] = []
+    per_fn: dict[tuple, list] = {}
+    fns: dict[tuple, ast.FunctionDef] = {}
+    for rel, tree in trees.items():
+        for c in [n for n in ast.walk(tree) if isinstance(n, ast.ClassDef)] + [tree]:
+            for f in c.body:
+                if isinstance(f, ast.FunctionDef):
+                    fns[(rel, c.name if isinstance(c, ast.ClassDef) else None, f.name)] = f
+        for cls, fn, node in _enclosing(tree):
+            if not (isinstance(node, ast.Call) and isinstance(node.func, ast.Name)):
+                continue
+            name = node.func.id
+            if name == 'cls' and cls in ID_CLASSES:
+                name = cls
+            if name not in ID_CLASSES or fn == 'copy':
+                continue
+            arg = node.args[0] if node.args else next((k.value for k in node.keywords if k.arg in ('vmf_file', 'vmf', 'map')), None)
+            per_fn.setdefault((rel, cls, fn), []).append((name, arg, node.lineno))
+    for (rel, cls, fn), calls in sorted(per_fn.items(), key=str):
+        f = fns.get((rel, cls, fn))
+        params = {a.arg for a in (f.args.posonlyargs + f.args.args + f.args.kwonlyargs)} if f is not None else set()
+        texts = {ast.unparse(a) if a is not None else '?' for _, a, _ in calls}
+        for name, arg, line in calls:
+            ok = False
+            if isinstance(arg, ast.Name):
+                if arg.id == 'self':
+                    ok = cls == 'VMF'
+                elif arg.id in params:
+                    ok = True
+                elif f is not None:
+                    d = c08_norm.single_assignment(f, arg.id)
+                    ok = isinstance(d, ast.Call) and isinstance(d.func, ast.Name) and d.func.id == 'VMF'
+            ok = ok and len(texts) == 1
+            rows.append((f'{rel}:{cls + "." if cls else ""}{fn}', name, ast.unparse(arg) if arg is not None else '?', ok, line))
+    if not rows:
+        raise TranslateError('no constructor call of an ID-bearing class found outside copy(): the census does not see the code')
+    return rows
+
+
+def manager_choice(vmf_tree: ast.Module) -> tuple[bool, dict]:
+    """Which manager class do the six ID managers of a map get when `preserve_ids` is false?  True when all of them are `IDMan`
+    (the class the allocator theorems are about) and `preserve_ids` defaults to False in VMF.__init__ and VMF.parse, and
+    VMF.parse hands its own parameter on.  Maps opened with preserve_ids=True get NullIDMan and are exempt from C08."""
+    from translate import c08_norm
+    vmf_cls = next((c for c in vmf_tree.body if isinstance(c, ast.ClassDef) and c.name == 'VMF'), None)
+    init = next((f for f in (vmf_cls.body if vmf_cls else []) if isinstance(f, ast.FunctionDef) and f.name == '__init__'), None)
+    parse = next((f for f in (vmf_cls.body if vmf_cls else []) if isinstance(f, ast.FunctionDef) and f.name == 'parse'), None)
+    if init is None or parse is None:
+        raise TranslateError('VMF.__init__ / VMF.parse not found')
+
+    def default_false(f: ast.FunctionDef) -> bool:
+        args = f.args.posonlyargs + f.args.args
+        defaults = [None] * (len(args) - len(f.args.defaults)) + list(f.args.defaults)
+        for a, d in list(zip(args, defaults)) + list(zip(f.args.kwonlyargs, f.args.kw_defaults)):
+            if a.arg == 'preserve_ids':
+                return isinstance(d, ast.Constant) and d.value is False
+        return False
+
+    def chosen(e: ast.AST | None, depth: int = 0) -> str:
+        """The class `e` evaluates to when preserve_ids is False."""
+        if e is None or depth > 3:
+            return '?'
+        if isinstance(e, ast.Name):
+            if e.id in ('IDMan', 'NullIDMan'):
+                return e.id
+            return chosen(c08_norm.single_assignment(init, e.id), depth + 1)
+        if isinstance(e, ast.IfExp):
+            t = e.test
+            if isinstance(t, ast.Name) and t.id == 'preserve_ids':
+                return chosen(e.orelse, depth + 1)
+            if isinstance(t, ast.UnaryOp) and isinstance(t.op, ast.Not) and isinstance(t.operand, ast.Name) and t.operand.id == 'preserve_ids':
+                return chosen(e.body, depth + 1)
+        return '?'
+    got: dict[str, str] = {}
+    for st in ast.walk(init):
+        if isinstance(st, ast.Assign) and len(st.targets) == 1 and isinstance(st.targets[0], ast.Attribute) \
+                and st.targets[0].attr in MANAGERS and isinstance(st.targets[0].value, ast.Name) and st.targets[0].value.id == 'self':
+            v = st.value
+            got[st.targets[0].attr] = chosen(v.func) if isinstance(v, ast.Call) and not v.args and not v.keywords else '?'
+    hands_on = False
+    for c in _calls(parse):
+        if isinstance(c.func, ast.Name) and c.func.id in ('VMF', 'cls'):
+            kw = next((k.value for k in c.keywords if k.arg == 'preserve_ids'), c.args[1] if len(c.args) > 1 else None)
+            hands_on = isinstance(kw, ast.Name) and kw.id == 'preserve_ids'
+    ok = set(got) == set(MANAGERS) and all(v == 'IDMan' for v in got.values()) and default_false(init) and default_false(parse) and hands_on
+    return ok, {'manager_classes': got, 'preserve_ids_default_false': [default_false(init), default_false(parse)], 'parse_hands_preserve_ids_on': hands_on}
